@@ -252,6 +252,15 @@ func c06History(r *rand.Rand, n int, script []func(ov dom.OverlayDocument, ref *
 					if n := ov2.Lookup("p", "servers[2]"); n == nil || !n.IsLeaf() || n.(dom.Leaf).Value() != "gamma" {
 						fail = append(fail, "after Populate with a null list item, Lookup(servers[2]) is not the third item")
 					}
+					// a container put at the root path: its leaves are the layer's leaves
+					rootDoc := map[string]any{"app": map[string]any{"name": "n", "ports": []any{80, 443}}, "flag": true}
+					ov2.Put("q", "", anyToContainer(rootDoc))
+					if got := nodeToAny(ov2.Layers()["q"]); !reflect.DeepEqual(got, any(rootDoc)) {
+						fail = append(fail, fmt.Sprintf("Put(layer, \"\", container) gives layer %v, expected %v", got, rootDoc))
+					}
+					if n := ov2.Lookup("q", "app.name"); n == nil || !n.IsLeaf() || n.(dom.Leaf).Value() != "n" {
+						fail = append(fail, "after Put at the root path, Lookup(app.name) does not find the leaf")
+					}
 				}
 				lm := ref.ensure(layer)
 				f := func(s map[string]any) {
